@@ -332,7 +332,7 @@ func (cap *commandArgParser) parseEachInput(args redisArgs, input ...respValue) 
 				}
 			}
 
-			if pms != PARSE_SINGLE_VALUE {
+			if pms == PARSE_MULTI_VALUE || pms == PARSE_MULTI_ONE_OF_TOKEN {
 				foundMultiple = true
 
 				// check recursively if multiple arguments stop here
